@@ -220,8 +220,14 @@ func Minimize(sc *h.Scenario, choices []int32, test func(*h.Scenario, []int32) b
 			}
 			cand := cloneScenario(cur)
 			bs := &cand.Bars[b]
+			if bs.FillOnComplete || bs.FillOnAbort || bs.Width > 0 {
+				bs.FillOnComplete, bs.FillOnAbort, bs.Width = false, false, 0
+				try(cand)
+				cand = cloneScenario(cur)
+				bs = &cand.Bars[b]
+			}
 			if bs.ExtRows > 0 || bs.RmOnComp || bs.NoPop || bs.Trim || bs.HasPrio || bs.Filler != h.FillProbe {
-				bs.ExtRows, bs.RmOnComp, bs.NoPop, bs.Trim, bs.HasPrio, bs.Filler = 0, false, false, false, false, h.FillProbe
+				bs.ExtRows, bs.ExtNoNL, bs.RmOnComp, bs.NoPop, bs.Trim, bs.HasPrio, bs.Filler = 0, false, false, false, false, false, h.FillProbe
 				try(cand)
 			}
 			for side := 0; side < 2; side++ {
